@@ -46,10 +46,9 @@ func Parse(fontInfo *sfnt.Font, input string) (lookups gtab.LookupList, err erro
 		}
 	}
 
-	cmap, err := fontInfo.CMapTable.GetBest()
-	if err != nil {
-		return nil, err
-	}
+	// A font without a character map can still use glyph names and glyph
+	// ids; only quoted strings need the map (see readGlyphList).
+	cmap, _ := fontInfo.CMapTable.GetBest()
 
 	_, tokens := lex(input)
 	p := &parser{
@@ -1124,6 +1123,9 @@ func (p *parser) readGlyphList() []glyph.ID {
 
 		case itemString:
 			for _, r := range decodeString(item.val) {
+				if p.cmap == nil {
+					p.fatal("font has no character map, cannot use %q", item.val)
+				}
 				gid := p.cmap.Lookup(r)
 				if gid == 0 {
 					p.fatal("rune %q not in mapped in font", r)
